@@ -1,4 +1,5 @@
 import ServlinVerif.Props.C11
+import ServlinVerif.Props.C11Format
 open Servlin.C11
 #print axioms C11_invariant
 #print axioms init_inv
@@ -8,3 +9,8 @@ open Servlin.C11
 #print axioms C11_format_partial_message
 #print axioms C11_legacy_empty_terminates
 #print axioms C11_custom_type_one_line
+open Servlin.C11F
+#print axioms C11_format_partial
+#print axioms rustLines_clean
+#print axioms lines_event
+#print axioms process_block
